@@ -148,5 +148,5 @@ STD_TABLE = {
                  cls='base'),
     'perr0': dict(kind='perr', params=[], code=-32099, message='no data', cls='base'),
     'boom': dict(kind='boom', params=[('a', 0)], exc='ValueError'),
-    'boomt': dict(kind='boom', params=[], exc='TypeError'),
+    'boomt': dict(kind='boom', params=[('a', 0)], exc='TypeError'),
 }
